@@ -62,7 +62,57 @@ def units(tier, seed):
   out = [('shapes', menu, n, nl, k)
          for menu, n, nl in bounds(tier)['plans'] for k in range(NCHUNK)]
   out += [('pressure', k) for k in (2, 3, 4, 5, 8, 13, 21)]
+  out.append(('registry_history',))
   return out
+
+
+def registry_history(res):
+  """A node type that becomes traversable *after* a derived registry has
+  already looked it up: later traversals must see the registration."""
+  class Late:
+    def __init__(self, items):
+      self.items = items
+
+  def bad(key, msg):
+    res.violation(f'C08/{key}', msg, {'registry_history': True})
+
+  for use_fallback_obj in (True, 'explicit'):
+    Late = type('Late', (Late,), {})
+    if use_fallback_obj is True:
+      parent = None
+      derived = daglish.NodeTraverserRegistry(use_fallback=True)
+    else:
+      parent = daglish.NodeTraverserRegistry(use_fallback=True)
+      derived = daglish.NodeTraverserRegistry(use_fallback=parent)
+    inner = ['x']
+    root = [Late([inner, 'y']), inner]
+    before = [spec(p) for _, p in daglish.iterate(root, memoized=False,
+                                                  registry=derived)]
+    res.transitions += 1
+    register = (daglish.register_node_traverser if parent is None
+                else parent.register_node_traverser)
+    register(
+        Late, flatten_fn=lambda v: (tuple(v.items), None),
+        unflatten_fn=lambda vals, _, L=Late: L(list(vals)),
+        path_elements_fn=lambda v: tuple(
+            daglish.Index(i) for i in range(len(v.items))))
+    after = [spec(p) for _, p in daglish.iterate(root, memoized=False,
+                                                 registry=derived)]
+    res.transitions += 1
+    res.states += 1
+    res.nontrivial += 1
+    if len(before) != 4:
+      bad('registry-history/unregistered-type-traversed', f'{before}')
+    if len(after) != 7:
+      bad('registry-history/late-registration-not-seen',
+          f'after registering the type in the fallback registry the derived '
+          f'registry still reports {after}')
+    paths = daglish.collect_paths_by_id(root, memoizable_only=True,
+                                        registry=derived)
+    if len(paths.get(id(inner), [])) != 2:
+      bad('registry-history/all-paths-miss-late-type',
+          f'{paths.get(id(inner))}')
+  res.sample({'registry_history': 'lookup, register in fallback, lookup'})
 
 
 def pressure_roots(k):
@@ -412,6 +462,24 @@ def check(root, res, case, label):
         seen_paths[id(value)] = [spec(p) for p in all_paths_]
       return (yield)
 
+    if not under_temp:
+      # legacy memoized traversal whose function returns None: every mutable
+      # object is still visited exactly once
+      visits = collections.Counter()
+
+      def legacy_none(all_paths_, value):
+        if is_mutable(value):
+          visits[id(value)] += 1
+        yield
+        return None
+
+      daglish_legacy.memoized_traverse(legacy_none, root)
+      res.transitions += 1
+      want_visits = {i for i, v in pinned.items() if is_mutable(v)}
+      if set(visits) != want_visits or any(c != 1 for c in visits.values()):
+        return bad('legacy-memoized_traverse-visits',
+                   f'visit counts {sorted(visits.values())} for '
+                   f'{len(want_visits)} distinct mutable objects')
     if under_temp:
       # the legacy all-paths traversals look parents up by id after
       # re-following the path, which cannot work for temporaries: skipped
@@ -493,6 +561,9 @@ def _kinds(menu):
 
 def run_unit(unit, tier, seed):
   res = core.Result()
+  if unit[0] == 'registry_history':
+    registry_history(res)
+    return res
   if unit[0] == 'pressure':
     for j, root in enumerate(pressure_roots(unit[1])):
       res.states += 1
@@ -531,6 +602,9 @@ def run_unit(unit, tier, seed):
 
 def replay(case):
   res = core.Result()
+  if 'registry_history' in case:
+    registry_history(res)
+    return res
   if 'pressure' in case:
     root = list(pressure_roots(case['pressure']))[case['variant']]
     check(root, res, case, 'pressure')
